@@ -48,4 +48,5 @@ var Checks = map[string]func(env *Env, rep *Report){
 	"C02": RunC02,
 	"C03": RunC03,
 	"C05": RunC05,
+	"C11": RunC11,
 }
